@@ -147,6 +147,14 @@ def check_case(ctx, cs):
             ok, r = _try(ctx, site, tg, {}, fn)
             if ok and not close_seq(r, e):
                 ctx.violate(site, tg, {}, {"expected": e, "got": r})
+        for lc in o["linspace2"]:
+            a_, b_, num = float(fr(lc["a"])), float(fr(lc["b"])), lc["num"]
+            small = {"start": lc["a"], "stop": lc["b"], "num": num}
+            t2 = tg + ["linspace", "decreasing" if a_ > b_ else ("degenerate" if a_ == b_ else "increasing")]
+            ctx.count(("linspace2", str(small)), sample={"op": "linspace", **small, "res": lc["res"]})
+            ok, r = _try(ctx, "linalg.linspace", t2, small, lambda: linalg.linspace(a_, b_, num))
+            if ok and not close_seq(list(r), frv(lc["res"])):
+                ctx.violate("linalg.linspace", t2, small, {"expected": fl(frv(lc["res"])), "got": r})
         for mv in o["matvec"]:
             M, v = [[float(x) for x in r] for r in mv["M"]], [float(x) for x in mv["v"]]
             small = {"M": mv["M"], "v": mv["v"]}
